@@ -39,11 +39,49 @@ def match(exp, obs):
     return None
 
 
+# arguments at the limits of size_t/long: the specification's stand-ins and the text the drivers parse
+HUGE, SHUGE = 1000000, 500000
+HKEYS = ("pos", "off", "n", "len", "nblk", "esz", "hl", "cap")
+
+
+def symbolic(v):
+    if isinstance(v, int) and not isinstance(v, bool):
+        if v >= HUGE - 1000:
+            return "max-%d" % (HUGE - 1 - v)
+        if SHUGE <= v < SHUGE + 1000:
+            return "smax+%d" % (v - (SHUGE - 1))
+        if SHUGE - 1000 <= v < SHUGE:
+            return "smax-%d" % (SHUGE - 1 - v)
+    return v
+
+
+def script(behs):
+    """driver script; huge stand-in values of offset/length arguments are written symbolically"""
+    out = []
+    for beh in behs:
+        nb = []
+        for st in beh:
+            arg = st.get("arg") or {}
+            if any(isinstance(arg.get(k), int) and arg.get(k) >= SHUGE - 1000 for k in HKEYS):
+                arg = {k: (symbolic(v) if k in HKEYS else v) for k, v in arg.items()}
+                st = dict(st, arg=arg)
+            nb.append(st)
+        out.append(nb)
+    return vlib.to_script(out)
+
+
+def is_huge(arg):
+    return any(isinstance(arg.get(k), int) and arg.get(k) >= SHUGE - 1000 for k in HKEYS)
+
+
 def argclass(step, prev_mdl, prev_exp):
     """Discriminating condition of a call relative to the state before it (from the model's own record)."""
     a, arg = step["a"], step.get("arg") or {}
     h = arg.get("h", 1) - 1
     parts = []
+    if is_huge(arg):
+        hk = sorted(k for k in HKEYS if isinstance(arg.get(k), int) and arg.get(k) >= SHUGE - 1000)
+        parts.append("huge-" + "+".join(hk))
     if prev_mdl and 0 <= h < len(prev_mdl["refs"]):
         used = prev_exp["lens"][h]
         size = prev_mdl["sizes"][h]
@@ -179,8 +217,50 @@ def gen_histories(ck, n, steps, nh=4):
         def position(h):
             return rng.choice([0, 0, 1, near(est[h]), near(est[h]), est[h], est[h] // 2, rng.choice(EDGES)])
 
+        def huge(other=0):
+            """offset/length at the limits: SIZE_MAX-k, LONG_MAX+-k, or a value whose sum with `other` wraps into range"""
+            c = [HUGE - 1, HUGE - 2, HUGE - 1 - rng.randrange(0, 9), SHUGE - 1, SHUGE, SHUGE - 2]
+            if other:
+                c += [HUGE - other, HUGE - other + 1, HUGE - max(1, other - 1)]
+            return rng.choice(c)
+
+        def huge_call(h):
+            """one call with an argument at the limits (refused, nothing may change)"""
+            hh = h + 1
+            k = rng.choice([0, 1, 2, 3, max(1, est[h])])
+            p = rng.choice([0, 1, est[h], near(est[h])])
+            t = typ[h] if typ[h] in ("c", "n") else "c"
+            e = 2 if t == "n" else 1
+            return rng.choice([
+                {"a": "bufcut", "arg": {"h": hh, "off": huge(k), "n": k}},
+                {"a": "bufcut", "arg": {"h": hh, "off": p, "n": huge(p)}},
+                {"a": "bufinsert", "arg": {"h": hh, "pos": huge(k), "data": fresh(k), "hl": 0}},
+                {"a": "bufinsert", "arg": {"h": hh, "pos": p, "data": [], "hl": huge(p)}},
+                {"a": "bufset", "arg": {"h": hh, "typ": typ[h] if typ[h] != "none" else "raw", "pos": huge(k), "data": fresh(k),
+                                        "zero": 0, "hl": 0}},
+                {"a": "bufset", "arg": {"h": hh, "typ": typ[h] if typ[h] != "none" else "raw", "pos": p, "data": [], "zero": 1,
+                                        "hl": huge(p)}},
+                {"a": "append", "arg": {"h": hh, "data": [], "zero": 1, "hl": huge(est[h])}},
+                {"a": "insert", "arg": {"h": hh, "pos": huge(k), "data": fresh(k), "hl": 0}},
+                {"a": "insert", "arg": {"h": hh, "pos": p, "data": [], "hl": huge(p)}},
+                {"a": "settyped", "arg": {"h": hh, "typ": t, "data": fresh(k - k % e), "off": rng.choice([SHUGE - 1, SHUGE - 2]),
+                                          "zero": 0, "hl": 0}},
+                {"a": "settyped", "arg": {"h": hh, "typ": t, "data": [], "off": p // e, "zero": 1, "hl": huge(p)}},
+                {"a": "slice", "arg": {"h": hh, "off": huge(k), "data": [0] * k, "fill": 0, "hl": 0}},
+                {"a": "slice", "arg": {"h": hh, "off": p, "data": [], "fill": 0, "hl": huge(p)}},
+                {"a": "reserve", "arg": {"h": hh, "len": huge(), "typ": typ[h] if typ[h] != "none" and rng.random() < 0.6
+                                         else rng.choice(["raw", "c", "n"])}},
+                {"a": "slicewrite", "arg": {"h": hh, "off": 0, "len": 0, "nblk": huge(), "esz": rng.choice([1, 2, 8]),
+                                            "data": [], "zero": 1}},
+                {"a": "slicewrite", "arg": {"h": hh, "off": 0, "len": 0, "nblk": rng.choice([1, 2, 3]), "esz": huge(),
+                                            "data": [], "zero": 1}},
+            ])
+
         for _ in range(steps):
             h = rng.randrange(nh)
+            if rng.random() < 0.08:
+                beh.append(huge_call(h))
+                continue
             op = rng.choice(["new", "append", "append", "insert", "settyped", "slice", "slice", "reserve", "clone", "clone",
                              "clone", "reduce", "printf", "printf", "string", "slicewrite", "slicewrite", "bufinsert",
                              "bufcut", "bufset", "drop"])
@@ -335,7 +415,7 @@ def do_replay(api, gencfg, module="Gen_CowArray"):
     behs = vlib.parse_behaviours(gen.out)
     gen.out = ""
     exe = build(api)
-    recs, _ = vlib.run_driver(exe, vlib.to_script(behs), timeout=1500)
+    recs, _ = vlib.run_driver(exe, script(behs), timeout=1500)
     mms, stats = compare(behs, recs, api)
     found = []
     for mm in mms:
@@ -374,7 +454,7 @@ XAPIS = ("xarr", "xtyped", "xunique", "xptr", "xmap")
 def do_trace(ck, cfg):
     exe = build("c")
     hist = gen_histories(ck, cfg["nhist"], cfg["steps"])
-    recs2, _ = vlib.run_driver(exe, vlib.to_script(hist))
+    recs2, _ = vlib.run_driver(exe, script(hist))
     events = vlib.merge_trace(hist, recs2)
     return hist, recs2, events
 
@@ -505,7 +585,7 @@ def replay(path):
         return 2
     api = det.get("api", "c")
     exe = build(api)
-    recs, err = vlib.run_driver(exe, vlib.to_script([beh]))
+    recs, err = vlib.run_driver(exe, script([beh]))
     if all("exp" in s for s in beh):
         mms, _ = compare([beh], recs, api)
         for mm in mms:
